@@ -23,7 +23,7 @@ struct Out {
 fn one(i: usize, seed: u64, thorough: bool) -> Out {
     let mut rng = ChaCha8Rng::seed_from_u64(seed ^ 0xc12 ^ (i as u64).wrapping_mul(0x9e3779b97f4a7c15));
     let n = 2 + (i / 7) % 3;
-    let ands = if i % 97 == 96 { 1100 } else if thorough && i % 211 == 210 { 2100 } else { [0usize, 1, 2, 3, 5][i % 5] };
+    let ands = if i % 97 == 96 { 1100 } else if i % 193 == 100 || (thorough && i % 211 == 210) { 2100 + (i % 3) * 1000 } else { [0usize, 1, 2, 3, 5][i % 5] };
     let mut cfg = circ::random_gen_cfg(&mut rng, n, ands);
     if ands > 500 { cfg.others = 40; cfg.extra_regs = 24; cfg.reuse_pct = 50; }
     let c = circ::gen_circuit(&mut rng, &cfg);
@@ -49,6 +49,7 @@ fn one(i: usize, seed: u64, thorough: bool) -> Out {
     case.cap = cap;
     case.tmp = tmp.clone();
     case.keep_bytes = false;
+    case.send_yields = i % 2 == 1;
     case = case.with_sched(sched.clone(), rng.random());
     let ex = exec_mpc(case);
     let mut sig = None;
@@ -74,7 +75,7 @@ fn one(i: usize, seed: u64, thorough: bool) -> Out {
             sig = Some(format!("two {kind} outstanding for the same peer at once"));
         }
     }
-    let key = format!("n={n} E={p_eval} cap={:?} sched={} ands={}", cap, sched_name(&sched), crate::props::c01::and_class(ands));
+    let key = format!("n={n} E={p_eval} cap={:?} sched={} ands={} slow-send={}", cap, sched_name(&sched), crate::props::c01::and_class(ands), i % 2 == 1);
     let sample = json!({"n": n, "p_eval": p_eval, "p_out": p_out, "capacity": cap, "scheduler": format!("{sched:?}"), "tmp": bits(&tmp),
         "circuit": circ::circ_to_json(&c), "steps": ex.steps, "polls": ex.polls, "messages": ex.net.msgs.len(),
         "outcomes": ex.outcomes.iter().map(outcome_str).collect::<Vec<_>>(), "end": format!("{:?}", ex.end),
